@@ -495,6 +495,58 @@ func checkMVNormal(c mvnCase) *vk.Failure {
 			break
 		}
 	}
+	// The package-level samplers NormalRand and NormalRandCov (covariance given
+	// as a dense symmetric matrix, a Cholesky or a pivoted Cholesky factorization)
+	if c.Ctor == 0 {
+		var ch mat.Cholesky
+		ch.Factorize(sg.toMat())
+		var pch mat.PivotedCholesky
+		pch.Factorize(sg.toMat(), -1)
+		variants := []struct {
+			name string
+			draw func() []float64
+		}{
+			{"NormalRand", func() []float64 { return distmv.NormalRand(nil, mu, &ch, src) }},
+			{"NormalRandCov-SymDense", func() []float64 { return distmv.NormalRandCov(nil, mu, sg.toMat(), src) }},
+			{"NormalRandCov-Cholesky", func() []float64 { return distmv.NormalRandCov(nil, mu, &ch, src) }},
+			{"NormalRandCov-PivotedCholesky", func() []float64 { return distmv.NormalRandCov(nil, mu, &pch, src) }},
+		}
+		v := variants[int(c.S2%uint64(len(variants)))]
+		nv := nd / 2
+		vcols := make([][]float64, d)
+		for k := 0; k < nv; k++ {
+			x := v.draw()
+			diff := make([]float64, d)
+			for i := range diff {
+				diff[i] = x[i] - mu[i]
+			}
+			// any square root S of Sigma gives L^-1 S z ~ N(0, I)
+			for i, w := range lsolve(l, diff) {
+				vcols[i] = append(vcols[i], w)
+			}
+		}
+		// (evaluated before the per-coordinate test, which sorts the columns in place)
+		// the sum of the whitened coordinates has variance d: detects a wrong
+		// correlation structure that leaves the marginals intact
+		if d >= 2 {
+			sums := make([]float64, nv)
+			for k := range sums {
+				for i := range vcols {
+					sums[k] += vcols[i][k]
+				}
+				sums[k] /= math.Sqrt(float64(d))
+			}
+			if dist, at := ksContinuous(sums, distuv.UnitNormal.CDF); !(dist <= dkwBound(nv)) {
+				fs.add(F(v.name+"-law", "normalized sum of the coordinates of L^-1(%s()-mu): Kolmogorov distance to N(0,1) is %.4f at %v", v.name, dist, at))
+			}
+		}
+		for i := range vcols {
+			if dist, at := ksContinuous(vcols[i], distuv.UnitNormal.CDF); !(dist <= dkwBound(nv)) {
+				fs.add(F(v.name+"-law", "coordinate %d of L^-1(%s()-mu): Kolmogorov distance to N(0,1) is %.4f at %v over %d draws", i, v.name, dist, at, nv))
+				break
+			}
+		}
+	}
 	// SetMean moves the density
 	if d <= 3 {
 		mu2 := make([]float64, d)
